@@ -40,41 +40,74 @@ def extra_values(rnd, n):
         while rnd.random() < 0.5 and len(vs) < 4:
             vs.append(g.mutate(v))
         out.append((rnd.choice([0, 1, 2, 3, 10]), vs))
+    # directed: two TypedDicts under the same field name in one type (generated class names collide: recorded finding)
+    out.append((2, [{"p": {"f": {"a": 1}}, "q": {"f": {"a": 1, "b": 2}}}, {"p": {"f": {"a": 1, "c": 2}}, "q": {"f": {"a": 1, "b": 2}}}]))
     return out
 
 
-def stub_counts(impl):
-    """fields per generated TypedDict: a required-only / optional-only TypedDict is one class; one with both is a base
-    class immediately followed by its `...NonTotal(<base>, total=False)` subclass, counted together.  Classes are
-    paired by position and by the base named in the header, never merged by name (two different TypedDicts can be
-    given the same generated name: C11's finding kf_hint_collision)."""
-    from monkeytype.stubs import ReplaceTypedDictsWithStubs
-    _, stubs = ReplaceTypedDictsWithStubs.rewrite_and_get_stubs(impl, "foo")
-    entries = []          # [name, fields, has_nontotal_partner]
-    counts_bad = 0
+def _structural_counts(stubs):
+    """fallback when the class stubs cannot be executed (a dict key that is not an identifier makes the class body invalid
+    Python - C11/C01's recorded rendering finding, not a size question): own fields per class, a NonTotal class counted
+    with the most recent unpartnered class of its base's name"""
+    entries, bad = [], 0
     for s in stubs:
         m = re.match(r"^(\w+)\((\w+)(, total=False)?\)$", s.name)
         if not m:
-            counts_bad += 1           # unparseable header: fail closed
+            bad += 1
             continue
         name, base, nontotal = m.group(1), m.group(2), bool(m.group(3))
         n = len(list(s.attribute_stubs))
         if base == "TypedDict":
-            entries.append([name, n, nontotal])      # an optional-only TypedDict takes no partner
+            entries.append([name, n, nontotal])
         elif nontotal:
-            # the `...NonTotal(<base>, total=False)` half of a TypedDict with required and optional keys: counted with
-            # the most recent still unpartnered class of that name (nested class stubs may sit in between)
             for e in reversed(entries):
                 if e[0] == base and not e[2]:
                     e[1] += n
                     e[2] = True
                     break
             else:
-                counts_bad += 1
+                bad += 1
         else:
-            counts_bad += 1
-    counts = [e[1] for e in entries] + [10 ** 6] * counts_bad
-    return counts
+            bad += 1
+    return [e[1] for e in entries] + [10 ** 6] * bad
+
+
+def stub_counts(impl):
+    """keys of every TypedDict class the generated class stubs DEFINE, as Python defines them: the class stubs are rendered
+    by the real machinery and executed one class statement at a time (annotations unevaluated), and each resulting class
+    object is asked for its keys - so a `...NonTotal(<base>, total=False)` class counts its base's keys too, and the base
+    is whatever class that NAME is bound to at that point.  Returns (counts, collision) where collision says that two
+    generated classes share a name (C11's finding kf_hint_collision), in which case a NonTotal class can inherit from the
+    wrong base."""
+    import ast
+    from monkeytype.stubs import ReplaceTypedDictsWithStubs
+    _, stubs = ReplaceTypedDictsWithStubs.rewrite_and_get_stubs(impl, "foo")
+    stubs = list(stubs)
+    if not stubs:
+        return [], False
+    names = [re.match(r"^(\w+)", s.name).group(1) for s in stubs]
+    collision = len(names) != len(set(names))
+    # ModuleStub.render emits the class stubs sorted by name (stable): that is the order in which Python defines them
+    stubs = sorted(stubs, key=lambda s: s.name)
+    text = "\n\n".join(s.render() for s in stubs)
+    ns = {}
+    exec("from __future__ import annotations\nfrom mypy_extensions import TypedDict\n", ns)
+    counts = []
+    try:
+        tree = ast.parse(text)
+    except SyntaxError:
+        return _structural_counts(stubs), collision
+    for node in tree.body:
+        if not isinstance(node, ast.ClassDef):
+            counts.append(10 ** 6)
+            continue
+        src = "from __future__ import annotations\n" + ast.get_source_segment(text, node)
+        try:
+            exec(compile(src, "<stub>", "exec"), ns)
+            counts.append(len(ns[node.name].__annotations__))
+        except Exception:
+            counts.append(10 ** 6)
+    return counts, collision
 
 
 def run(ctx):
@@ -88,7 +121,7 @@ def run(ctx):
     for c in cases:
         impl = None
         dec_term = c["impl"]
-        counts = []
+        counts, collision = [], False
         if c["error"] is None:
             impl = infer_cases.impl_infer(c["vs"], c["k"])
             try:
@@ -99,16 +132,17 @@ def run(ctx):
                 dec_term = 'TFwd "?decode-raised"%string'
                 c["error"] = f"round trip raised {type(e).__name__}: {e}"
             try:
-                counts = stub_counts(impl)
+                counts, collision = stub_counts(impl)
             except Exception as e:
-                counts = [10 ** 6]
+                counts, collision = [10 ** 6], False
                 c["error"] = f"stub generation raised {type(e).__name__}: {e}"
         if "TTypedDict" in c["impl"]:
             dist["has_td"] += 1
         dist["stub_classes"] += len(counts)
         c["decoded"] = dec_term
         c["counts"] = counts
-        terms.append(f"C6Case ({c['term']}) ({dec_term}) {common.coq_list(str(min(x, 100000)) for x in counts)}")
+        c["collision"] = collision
+        terms.append(f"C6Case ({c['term']}) ({dec_term}) {common.coq_list(str(min(x, 100000)) for x in counts)} {common.coq_bool(collision)}")
     header = HEADER % ct.hierarchy()
     outs = common.run_coq_shards(ctx.work, "c06", header, terms, "c6case", "bad verdict_c06 0 cases")
     bad = common.parse_bad(outs)
@@ -117,7 +151,12 @@ def run(ctx):
         c = cases[i]
         rec = {"k": c["k"], "values": c["vs_repr"], "impl": c["impl"], "decoded": c["decoded"], "stub_counts": c["counts"],
                "error": c["error"], "term": terms[i]}
-        if code == 2:
+        if code == 5:
+            rec["finding"] = "kf_hint_collision"
+            rec["what"] = (f"two generated TypedDict classes share a name, so a NonTotal class inherits from the wrong base and "
+                           f"defines more than k={c['k']} keys: values={c['vs_repr'][:200]} class key counts={c['counts']}")
+            failures.append(rec)
+        elif code == 2:
             rec["what"] = f"TypedDict size limit k={c['k']} not honoured for values={c['vs_repr'][:200]} (type / decoded type / stub classes)"
             failures.append(rec)
         else:
@@ -139,10 +178,17 @@ def replay(ctx, payload):
     print(payload)
     return 0
 
-CLAIM = {'note': 'Trusted: Coq kernel + vm_compute; harness reifiers; typing semantics as modelled. Stub-class and '
-         'store clauses are per-case Coq evaluations of implementation output.',
+CLAIM = {'note': 'Trusted: Coq kernel + vm_compute; harness reifiers; typing semantics as modelled. Finding '
+         'kf_hint_collision (a NonTotal class inheriting from a same-named class of another TypedDict exceeds k '
+         'keys) recorded; it is exactly the side condition of the by-name theorem.',
  'ref': '4/C06',
  'technique': 'Coq proof by induction on fuel/values + vm_compute differential correspondence',
- 'text': 'Coq theorems k0_no_typeddict, td_bounded_infer, td_bounded_merge, td_from_str_dicts_only about the '
-         'inference model for every k, every value collection and every merge; store round trip and stub '
-         "classes checked per case by the Coq predicate td_boundedb on the implementation's output."}
+ 'text': 'Coq theorems for every limit k, every value collection, every merge, the store round trip, every chain of '
+         'shipped rewriters and the generated class stubs: k0_no_typeddict, td_bounded_infer, td_bounded_merge, '
+         'td_from_str_dicts_only, td_survives_store / no_td_survives_store (what is decoded from the stored JSON '
+         'respects the limit; at k = 0 no stored row carries a TypedDict), td_bounded_rewrite(_chain) / '
+         'no_td_rewrite(_chain), td_bounded_stub_classes (every generated class, a NonTotal class counted with its '
+         'base, has between 1 and k fields; none at k = 0), td_bounded_stub_classes_by_name (the same read by class '
+         'NAME, under NoDup of the generated names), k_limit_end_to_end, k0_end_to_end. Tie: per case through '
+         'get_type + merge, the JSON round trip and the real class stubs executed as Python defines them; verdicts '
+         'in Coq.'}
